@@ -104,8 +104,9 @@ Proof. vm_compute. repeat split; reflexivity. Qed.
                                             message any plain characters and backslash escapes,
      IStmtA: name !( layout [target: layout "text" layout , layout]
                             [key [= value] {, key [= value]} [,] layout ; layout] "message"
-             -- with any layout between all tokens; keys are identifiers, values are digit runs,
-                identifiers or string literals (Proofs/ArgLemmas.v: args_ok),
+             -- with any layout between all tokens; keys are identifiers with an optional modifier,
+                values a digit run / identifier / string literal followed by further characters other
+                than "," ";" (Proofs/ArgLemmas.v: args_ok),
      IName : a name that starts no bracketed macro call,
      IChar : any other character (not whitespace, not a name start, not opening a comment).
    items_ok is purely syntactic (no hypothesis mentions the parser).  The result is computed in closed
@@ -177,8 +178,7 @@ Proof.
   - eexists. eexists. vm_compute. repeat split; reflexivity.
 Qed.
 
-(* NOT proved: key-values with modifiers (`:?`, `:debug` ...) or with values that are general
-   expressions, and bracketed macro calls whose arguments do not begin with a string literal, a target
+(* NOT proved: values with "," or ";" inside brackets, and bracketed macro calls whose arguments do not begin with a string literal, a target
    or key-values; that link is the correspondence + oracle campaign. *)
 
 (* non-vacuity: a statement with target, key-values, odd layout and a comment between arguments,
